@@ -460,6 +460,18 @@ func (g *gen) aliasAndFixed() []*StructDef {
 	mk("FixedU", true, f(1, Default, I32), f(2, Required, I64), f(3, Default, Bool), f(4, Default, Double))
 	mk("FixedN", false, f(1, Default, I16), f(2, Required, I8), f(7, Default, I64))
 	mk("FixedOneU", true, f(3, Default, I64))
+	// a map type that occurs inside its own value type, by value and by pointer: the decode of an inner map runs
+	// while the outer one is between decoding an entry and storing it
+	for _, ptr := range []bool{false, true} {
+		n := "RecMapV"
+		if ptr {
+			n = "RecMapP"
+		}
+		mk(n, false, f(1, Default, String),
+			&Field{ID: 2, Name: "F2", T: &T{K: List, Elem: &T{K: I64}}},
+			&Field{ID: 3, Name: "F3", T: &T{K: Map, Key: &T{K: String}, Elem: &T{K: Struct, S: n, Ptr: ptr}}},
+			&Field{ID: 4, Name: "F4", T: &T{K: Map, Key: &T{K: I32}, Elem: &T{K: Struct, S: n, Ptr: ptr}}, Req: Optional})
+	}
 	// second, independent holders of the same inner definitions (which holder is used first must not matter)
 	for _, in := range []string{"FixedU", "FixedN", "EmptyU"} {
 		mk("Also"+in, false,
